@@ -42,6 +42,10 @@ struct AccCase {
     /// width of the warm access: 0 = same as the access under test, else this width (a check
     /// remembered for a wider access must not cover a later access elsewhere)
     warm_width: u8,
+    /// the warm access is made this many more times, the base register re-derived from r10 each
+    /// time (thousands of checked accesses, tens of thousands of values, in one straight-line block
+    /// before the access under test)
+    warm_reps: u32,
     /// load the program through new(None) + register ranges + set_program instead of new(prog)
     via_set_program: bool,
     /// stack targets only: 0 = base is a computed copy of r10 (mov + add), 1 = r10 itself is the
@@ -70,6 +74,10 @@ struct Layout {
     mbuff: Option<GuardBuf>,
     extra: GuardBuf,
     ranges: Vec<Range<u64>>,
+    /// further registered ranges at addresses nothing is mapped at and no target goes to: they only
+    /// make the VM's collection of ranges large (hundreds of registrations on one VM); half are
+    /// registered before the real ranges, half after
+    decoys: Vec<Range<u64>>,
     desc: String,
 }
 
@@ -140,6 +148,15 @@ fn build_prog(c: &AccCase, pkt_base: u64) -> Vec<u8> {
                                 v.push(Insn::new(LDDW, 4, 0, 0, STORE_VAL as u32 as i32));
                                 v.push(Insn::new(0, 0, 0, 0, (STORE_VAL >> 32) as u32 as i32));
                                 v.push(Insn::new(opc, 2, 4, c.off, 0));
+                            }
+                        }
+                        for _ in 0..c.warm_reps {
+                            v.push(Insn::new(MOV64_REG, 2, 10, 0, 0));
+                            v.push(Insn::new(ADD64_IMM, 2, 0, 0, -64 - c.off as i32));
+                            match c.acc {
+                                Acc::Ldx => v.push(Insn::new(opc, 0, 2, c.off, 0)),
+                                Acc::St => v.push(Insn::new(opc, 2, 0, c.off, ST_IMM)),
+                                _ => v.push(Insn::new(opc, 2, 4, c.off, 0)),
                             }
                         }
                         match c.repoint {
@@ -349,8 +366,17 @@ fn make_layout(rng: &mut Rng, cl: bool) -> Layout {
             rdesc = "overlap-packet-tail"
         }
     }
-    let desc = format!("{}:pkt{}{}:mbuff{}:{}", kind.name(), plen, if end_aligned { "E" } else { "S" }, mbuff.as_ref().map(|m| m.len()).unwrap_or(0), rdesc);
-    Layout { kind, pkt, mbuff, extra, ranges, desc }
+    // one interpreter layout in twelve registers hundreds of other ranges as well
+    let mut decoys: Vec<Range<u64>> = Vec::new();
+    if !cl && !cfg!(miri) && rng.chance(1, 12) {
+        let n = *rng.pick(&[200u64, 254, 255, 256, 257, 300, 511, 512, 513, 1100]);
+        for k in 0..n {
+            let s = 0x1000_0000_0000u64 + k * 64 + (k % 3) * 8;
+            decoys.push(s..s + 8 + (k % 5) * 8);
+        }
+    }
+    let desc = format!("{}:pkt{}{}:mbuff{}:{}{}", kind.name(), plen, if end_aligned { "E" } else { "S" }, mbuff.as_ref().map(|m| m.len()).unwrap_or(0), rdesc, if decoys.is_empty() { String::new() } else { format!("+{}decoy-ranges", decoys.len()) });
+    Layout { kind, pkt, mbuff, extra, ranges, decoys, desc }
 }
 
 /// An access relative to the fixed VM's internal buffer (offsets (0, 8): it must hold two pointers,
@@ -567,7 +593,7 @@ pub fn huge_probes(a: &Args, rep: &mut Report, engine: crate::engines::Engine) {
             if c.role == 2 {
                 vm.register_allowed(hb.addr()..hb.addr() + l);
             }
-            hooks::reset(10_000, false);
+            hooks::reset(200_000, false);
             let huge = (hb.addr() as *mut u8, l as usize);
             let sm = (small.addr() as *mut u8, small.len());
             let (pk, mb) = match c.role {
@@ -735,6 +761,7 @@ pub fn run(a: &Args, rep: &mut Report, cl: bool) {
         }
         // cases for this layout: a random subset of targets x access kinds x widths x splits
         let mut cases: Vec<AccCase> = Vec::new();
+        let mut long_warm = 0u64;
         // (layouts with large buffers: fewer cases each - every case snapshots all arenas)
         let large = l.pkt.as_ref().map(|p| p.len()).unwrap_or(0) + l.mbuff.as_ref().map(|m| m.len()).unwrap_or(0) > 8192;
         let per_layout = (if large { 160 } else if cl { 400 } else { 1500 }).min((target_cases - done) as usize).max(1);
@@ -757,11 +784,11 @@ pub fn run(a: &Args, rep: &mut Report, cl: bool) {
                     if tt.wrapping_sub(pkt_base) > u32::MAX as u64 {
                         continue;
                     }
-                    cases.push(AccCase { acc, width, target: t, off: 0, tag: tname, warm: false, repoint: 0, warm_width: 0, via_set_program: rng.chance(1, 4), direct: 0, src_field: 0, regs: (2, 4, 0) });
+                    cases.push(AccCase { acc, width, target: t, off: 0, tag: tname, warm: false, repoint: 0, warm_width: 0, warm_reps: 0, via_set_program: rng.chance(1, 4), direct: 0, src_field: 0, regs: (2, 4, 0) });
                 }
                 Acc::LdInd => {
                     let Target::Abs(_) = t else { continue };
-                    cases.push(AccCase { acc, width, target: t, off: off.max(0), tag: tname, warm: false, repoint: 0, warm_width: 0, via_set_program: rng.chance(1, 4), direct: 0, src_field: 0, regs: (2, 4, 0) });
+                    cases.push(AccCase { acc, width, target: t, off: off.max(0), tag: tname, warm: false, repoint: 0, warm_width: 0, warm_reps: 0, via_set_program: rng.chance(1, 4), direct: 0, src_field: 0, regs: (2, 4, 0) });
                 }
                 _ => {
                     // stack targets: half of them addressed through r10 itself (or an unmodified
@@ -810,10 +837,15 @@ pub fn run(a: &Args, rep: &mut Report, cl: bool) {
                     };
                     let regs = if warm && is_abs && (repoint == 3 || repoint == 4) { (0, regs.1, 0) } else { regs };
                     let warm_width = if warm && rng.chance(1, 3) { 8 } else { 0 };
-                    cases.push(AccCase { acc, width, target: t, off, tag: tname, warm, repoint, warm_width, via_set_program: rng.chance(1, 4), direct, src_field, regs })
+                    let warm_reps = if warm && is_abs && !cfg!(miri) && acc != Acc::Xadd && rng.chance(1, if cl { 40 } else { 150 }) { rng.range(2500, 6000) as u32 } else { 0 };
+                    if warm_reps > 0 {
+                        long_warm += 1;
+                    }
+                    cases.push(AccCase { acc, width, target: t, off, tag: tname, warm, repoint, warm_width, warm_reps, via_set_program: rng.chance(1, 4), direct, src_field, regs })
                 }
             }
         }
+        rep.add("cases_with_thousands_of_warm_accesses", long_warm);
         // snapshot of every arena
         let reset = |l: &Layout| {
             if let Some(p) = &l.pkt {
@@ -873,11 +905,11 @@ pub fn run(a: &Args, rep: &mut Report, cl: bool) {
             if shrink {
                 let fr = sys::catch(|| -> Result<u64, String> {
                     let mut vm = Vm::new(l.kind, Some(prog), (0, 8))?;
-                    for r in &l.ranges {
+                    for r in l.decoys.iter().take(l.decoys.len() / 2).chain(l.ranges.iter()).chain(l.decoys.iter().skip(l.decoys.len() / 2)) {
                         vm.register_allowed(r.clone());
                     }
                     vm.register_helper(RET_A1_ID, ret_a1)?;
-                    hooks::reset(10_000, false);
+                    hooks::reset(200_000, false);
                     let pk = l.pkt.as_ref().map(|p| (p.addr() as *mut u8, p.len())).unwrap_or((std::ptr::null_mut(), 0));
                     vm.exec(pk, (std::ptr::null_mut(), 0))
                 });
@@ -891,7 +923,7 @@ pub fn run(a: &Args, rep: &mut Report, cl: bool) {
             let r = sys::catch(|| {
                 let mut vm = if cases[i].via_set_program {
                     let mut vm = Vm::new(l.kind, None, if shrink { (0x40, 0x50) } else { (0, 8) }).map_err(|e| format!("REJECTED {e}"))?;
-                    for r in &l.ranges {
+                    for r in l.decoys.iter().take(l.decoys.len() / 2).chain(l.ranges.iter()).chain(l.decoys.iter().skip(l.decoys.len() / 2)) {
                         vm.register_allowed(r.clone());
                     }
                     vm.set_program(prog, (0, 8)).map_err(|e| format!("REJECTED {e}"))?;
@@ -899,13 +931,13 @@ pub fn run(a: &Args, rep: &mut Report, cl: bool) {
                     vm
                 } else {
                     let mut vm = Vm::new(l.kind, Some(prog), (0, 8)).map_err(|e| format!("REJECTED {e}"))?;
-                    for r in &l.ranges {
+                    for r in l.decoys.iter().take(l.decoys.len() / 2).chain(l.ranges.iter()).chain(l.decoys.iter().skip(l.decoys.len() / 2)) {
                         vm.register_allowed(r.clone());
                     }
                     vm.register_helper(RET_A1_ID, ret_a1).map_err(|e| format!("REJECTED helper: {e}"))?;
                     vm
                 };
-                hooks::reset(10_000, false);
+                hooks::reset(200_000, false);
                 let pk = l.pkt.as_ref().map(|p| (p.addr() as *mut u8, p.len())).unwrap_or((std::ptr::null_mut(), 0));
                 let mb = l.mbuff.as_ref().map(|p| (p.addr() as *mut u8, p.len())).unwrap_or((std::ptr::null_mut(), 0));
                 // "after something went wrong": a quarter of the interpreter cases are preceded, on
@@ -914,7 +946,7 @@ pub fn run(a: &Args, rep: &mut Report, cl: bool) {
                 if !cl && cases[i].off % 4 == 1 {
                     let _ = vm.exec((std::ptr::null_mut(), 0), (std::ptr::null_mut(), 0));
                     reset(&l);
-                    hooks::reset(10_000, false);
+                    hooks::reset(200_000, false);
                 }
                 if cl {
                     #[cfg(feature = "std")]
